@@ -474,52 +474,13 @@ fn unsol_case_fn(enable: bool, objects: &[u8], expect_classes: (bool, bool, bool
 fn c12_unsolicited_not_supported_by_config() {
     unsol_case(&[], (false, false, false), false)
 }
-// @harness c12_unsolicited_enable_all_classes
-// @props C12
-// @tier thorough
-// @class attempt
-// @timeout 3600
-// @mem 14
-// @units OutstationSession::handle_enable_or_disable_unsolicited, HeaderCollection::{parse,iter}
-// @bounds headers g60v2 g60v3 g60v4 (qualifier 06), enable or disable, any previous class set, unsolicited supported or not, any sequence
-#[kani::proof]
-#[kani::unwind(8)]
-fn c12_unsolicited_enable_all_classes() {
-    unsol_case(&[60, 2, 0x06, 60, 3, 0x06, 60, 4, 0x06], (true, true, true), false)
-}
-// @harness c12_unsolicited_bad_header_first
-// @props C12
-// @tier thorough
-// @class attempt
-// @timeout 3600
-// @mem 14
-// @units OutstationSession::handle_enable_or_disable_unsolicited
-// @bounds headers g60v1 (class 0: not acceptable) then g60v3: the rejection is reported although a later header is fine, and the good header still takes effect
-#[kani::proof]
-#[kani::unwind(8)]
-fn c12_unsolicited_bad_header_first() {
-    unsol_case(&[60, 1, 0x06, 60, 3, 0x06], (false, true, false), true)
-}
-// @harness c12_unsolicited_bad_header_last
-// @props C12
-// @tier thorough
-// @class attempt
-// @timeout 3600
-// @mem 14
-// @units OutstationSession::handle_enable_or_disable_unsolicited
-// @bounds headers g60v2 then g30v0 (not a class object): rejection reported, class 1 still switched
-#[kani::proof]
-#[kani::unwind(8)]
-fn c12_unsolicited_bad_header_last() {
-    unsol_case(&[60, 2, 0x06, 30, 0, 0x06], (true, false, false), true)
-}
 
 // @harness c12_enable_unsolicited_one_class
 // @props C12
 // @tier thorough
 // @class attempt
-// @timeout 1800
-// @mem 14
+// @timeout 3600
+// @mem 26
 // @units OutstationSession::handle_enable_or_disable_unsolicited, HeaderCollection::{parse,iter}
 // @bounds ENABLE_UNSOLICITED (constant), one header g60v3 (qualifier 06), any previous class set, unsolicited supported or not, any sequence: exactly class 2 is switched on; response shape
 #[kani::proof]
@@ -531,7 +492,7 @@ fn c12_enable_unsolicited_one_class() {
 // @props C12
 // @tier thorough
 // @class attempt
-// @timeout 3600
+// @timeout 1500
 // @mem 14
 // @units OutstationSession::handle_enable_or_disable_unsolicited, HeaderCollection::{parse,iter}
 // @bounds DISABLE_UNSOLICITED (constant), headers g60v1 (class 0: not acceptable) then g60v3: the rejection is reported although the later header is fine, and the good header still takes effect
@@ -539,32 +500,6 @@ fn c12_enable_unsolicited_one_class() {
 #[kani::unwind(8)]
 fn c12_disable_unsolicited_bad_then_good() {
     unsol_case_fn(false, &[60, 1, 0x06, 60, 3, 0x06], (false, true, false), true)
-}
-// @harness c12_unsolicited_one_class
-// @props C12
-// @tier thorough
-// @class attempt
-// @timeout 1800
-// @mem 14
-// @units OutstationSession::handle_enable_or_disable_unsolicited, HeaderCollection::{parse,iter}
-// @bounds one header g60v3 (qualifier 06): enable or disable, any previous class set, unsolicited supported or not, any sequence: exactly class 2 is switched; response shape
-#[kani::proof]
-#[kani::unwind(8)]
-fn c12_unsolicited_one_class() {
-    unsol_case(&[60, 3, 0x06], (false, true, false), false)
-}
-// @harness c12_unsolicited_one_bad_header
-// @props C12
-// @tier thorough
-// @class attempt
-// @timeout 1800
-// @mem 14
-// @units OutstationSession::handle_enable_or_disable_unsolicited
-// @bounds one header g60v1 (class 0 is not an event class): rejected with NO_FUNC_CODE_SUPPORT, nothing switched
-#[kani::proof]
-#[kani::unwind(8)]
-fn c12_unsolicited_one_bad_header() {
-    unsol_case(&[60, 1, 0x06], (false, false, false), true)
 }
 
 // @harness c12_object_parse_error_to_iin2
@@ -604,7 +539,7 @@ fn c12_object_parse_error_to_iin2() {
 // @props C12
 // @tier thorough
 // @class attempt
-// @timeout 900
+// @timeout 1500
 // @mem 14
 // @units OutstationSession::get_iin2, FunctionCode::get_function_info, HeaderCollection::{parse,is_empty}
 // @bounds DELAY_MEASURE and RECORD_CURRENT_TIME (functions that carry no objects) with one object header (constant bytes g60v2/06) => PARAMETER_ERROR; without objects => clean
@@ -719,7 +654,7 @@ fn c04_session_reset_drops_select() {
 // @props C12
 // @tier thorough
 // @class attempt
-// @timeout 3600
+// @timeout 1500
 // @mem 14
 // @units OutstationSession::{handle_freeze, handle_freeze_header}, HeaderCollection::{parse,iter}
 // @bounds IMMEDIATE_FREEZE / FREEZE_CLEAR with headers g22v0 (not freezable: rejected) then g20v0 (accepted), any sequence: the counters are frozen once AND the rejection is still reported (NO_FUNC_CODE_SUPPORT) - per-header results are OR-ed
@@ -746,7 +681,7 @@ fn c12_freeze_rejected_then_accepted() {
 // @props C12
 // @tier thorough
 // @class attempt
-// @timeout 5400
+// @timeout 1500
 // @mem 14
 // @units OutstationSession::{handle_freeze_at_time, handle_freeze_header}, HeaderCollection::{parse,iter}, CountSequence<Group50Var2>::single
 // @bounds FREEZE_AT_TIME with headers g20v0 (before any time object: PARAMETER_ERROR), g50v2 count 1 (arbitrary time and interval), g20v0 (accepted): frozen exactly once and the earlier PARAMETER_ERROR survives the later accepted header
@@ -772,7 +707,7 @@ fn c12_freeze_at_time_rejected_then_accepted() {
 // @props C12
 // @tier thorough
 // @class attempt
-// @timeout 5400
+// @timeout 1500
 // @mem 14
 // @units OutstationSession::{handle_write (async, polled once), handle_single_write_header, handle_write_iin}, HeaderCollection::{parse,iter}
 // @bounds WRITE with two g80v1 headers: [4..=4]=0 (not writable: PARAMETER_ERROR) then [7..=7]=0 (clears the restart bit: accepted), any sequence: the response must still carry PARAMETER_ERROR (a request of which ANY header is rejected is not answered cleanly) and the restart bit is cleared.  Attempt-and-report: async fn driven by a poll-once executor.
